@@ -203,7 +203,13 @@ type contractCase struct {
 
 func genContract(t *rapid.T) contractCase {
 	k := gen.Key(t, "key")
-	c := contractCase{Kind: rapid.SampledFrom([]string{"nondata", "longfopts"}).Draw(t, "kind"), Key: k[:], FPort: rapid.IntRange(-1, 255).Draw(t, "fport")}
+	c := contractCase{Kind: rapid.SampledFrom([]string{"nondata", "longfopts", "frm-without-fport"}).Draw(t, "kind"), Key: k[:], FPort: rapid.IntRange(-1, 255).Draw(t, "fport")}
+	if c.Kind == "frm-without-fport" {
+		c.MType = gen.DataMType(t)
+		c.FOpts = gen.Bytes(t, "frm", rapid.IntRange(1, 40).Draw(t, "n")) // the field carries the FRMPayload bytes for this kind
+		c.FPort = -1
+		return c
+	}
 	if c.Kind == "nondata" {
 		c.MType = rapid.SampledFrom([]byte{ref.MTJoinRequest, ref.MTJoinAccept, ref.MTRejoin, ref.MTProprietary}).Draw(t, "mtype")
 	} else {
@@ -235,6 +241,28 @@ func checkContract(c contractCase) evid.Outcome {
 			}
 		}
 		return evid.Outcome{NonTrivial: true, Class: "nondata"}
+	}
+	if c.Kind == "frm-without-fport" {
+		// a frame value with FRMPayload bytes but no FPort (not encodable): each method must return an error or apply the keystream
+		up := ref.IsUplinkMType(c.MType)
+		for _, name := range []string{"EncryptFRMPayload", "DecryptFRMPayload"} {
+			m := &lorawan.MACPayload{FHDR: lorawan.FHDR{DevAddr: lorawan.DevAddr{1, 2, 3, 4}, FCnt: 5}, FRMPayload: []lorawan.Payload{&lorawan.DataPayload{Bytes: append([]byte{}, c.FOpts...)}}}
+			p := lorawan.PHYPayload{MHDR: lorawan.MHDR{MType: lorawan.MType(c.MType)}, MACPayload: m}
+			var err error
+			if name == "EncryptFRMPayload" {
+				err = p.EncryptFRMPayload(key)
+			} else {
+				err = p.DecryptFRMPayload(key)
+			}
+			if err != nil {
+				continue
+			}
+			after, _ := gen.PayloadsToBytes(up, m.FRMPayload)
+			if want := ref.Keystream(toKey(c.Key), up, 0x01020304, 5, c.FOpts); !bytes.Equal(after, want) {
+				return evid.Fail("PHYPayload.%s on a frame with %d FRMPayload bytes and no FPort reports success, but the payload is %x afterwards (before %x, keystream transform %x): success without the transform", name, len(c.FOpts), after, []byte(c.FOpts), want)
+			}
+		}
+		return evid.Outcome{NonTrivial: true, Class: "frm-without-fport"}
 	}
 	mk := func() (lorawan.PHYPayload, *lorawan.MACPayload) {
 		m := &lorawan.MACPayload{FHDR: lorawan.FHDR{DevAddr: lorawan.DevAddr{1, 2, 3, 4}, FCnt: 5, FOpts: []lorawan.Payload{&lorawan.DataPayload{Bytes: append([]byte{}, c.FOpts...)}}}}
@@ -303,6 +331,6 @@ func TestProp(t *testing.T) {
 		60000, 3000000, genMethod, checkMethod)
 
 	evid.Rapid(r, t, "outcome-contract",
-		"rapid: frames on which no transform is defined - non-data MACPayload (join-request, join-accept, rejoin, proprietary) and FOpts longer than 15 bytes; every Encrypt*/Decrypt* method must return an error, never nil with untransformed data. Every case is non-trivial.",
+		"rapid: frames on which no transform is defined - non-data MACPayload (join-request, join-accept, rejoin, proprietary), FOpts longer than 15 bytes, and FRMPayload bytes without an FPort; every Encrypt*/Decrypt* method must return an error or apply the specification transform, never nil with untransformed data. Every case is non-trivial.",
 		4000, 200000, genContract, checkContract)
 }
